@@ -53,11 +53,13 @@ def offline(ctx, res):
         for v in vs:
             res.viols.append({"t": "viol", "prop": "C01", **v})
     res.counters["cli_replays"] = runs[0]
+    import c01_repl
+    repl_cov = c01_repl.repl_leg(ctx, res)
     fuzz_cov = fuzz_leg(ctx, res) if ctx["tier"] == "thorough" else {"skipped": "libFuzzer + ASan leg runs in the thorough tier only"}
     miri_cov = miri_leg(ctx, res) if ctx["tier"] == "thorough" else {"skipped": "Miri shard runs in the thorough tier only"}
     checked_cov = checked_leg(ctx, res) if ctx["tier"] == "thorough" else {"skipped": "overflow-checks amplifier runs in the thorough tier only"}
     return {"evaluations": runs[0], "nontrivial": 0, "distinct_nontrivial": 0,
-            "coverage": {"libfuzzer_asan_leg": fuzz_cov, "miri_leg": miri_cov, "overflow_checks_leg": checked_cov, "cli_leg": {"records_replayed": len(recs), "cli_invocations": runs[0], "modes": ["file", "inline", "-e stdin", "--format", "-i", "stdin inputs"]}}}
+            "coverage": {"libfuzzer_asan_leg": fuzz_cov, "miri_leg": miri_cov, "overflow_checks_leg": checked_cov, "repl_leg": repl_cov, "cli_leg": {"records_replayed": len(recs), "cli_invocations": runs[0], "modes": ["file", "inline", "-e stdin", "--format", "-i", "stdin inputs"]}}}
 
 
 def max_nesting(src):
